@@ -154,12 +154,15 @@ impl Exec {
         Exec { slots: HashMap::new(), stream: None, bytes: None }
     }
 
+    /// buffer argument `key`: inline bytes / sparse object under `key`, or a slot name under `<key>slot`
     pub fn buf(&self, op: &Value, key: &str) -> &'static [u8] {
         match &op[key] {
-            Value::String(s) => self.slots.get(s.as_str()).copied().unwrap_or(&[]),
             Value::Array(_) => leak(rd_bytes(&op[key])),
             Value::Object(o) => leak(materialise(o)),
-            _ => &[],
+            _ => match &op[format!("{key}slot").as_str()] {
+                Value::String(s) => self.slots.get(s.as_str()).copied().unwrap_or(&[]),
+                _ => &[],
+            },
         }
     }
 
